@@ -64,6 +64,69 @@ def _applies_to_root(h: Func, cb: str, root: str) -> bool:
     return False
 
 
+def registered_with_signature(ctx: Ctx, rule: str) -> int:
+    """every path produced in the main analysis (`X = Y._replace(store_path=P)` of a kept call, the path of a data function) is
+    registered in resolved_references with the RETURN signature of its producer before the function returns"""
+    rep = ctx.report
+    prog = ctx.prog
+    n2 = 0
+    main_mod = prog.module("dds.introspect")
+    for f in [x for x in prog.funcs.values() if x.module is main_mod]:
+        cfg = cfg_of(f)
+        fl = flow_of(prog, f)
+        for n in f.own_nodes():
+            # keep kind: X = Y._replace(store_path=P)
+            if isinstance(n, ast.Assign) and isinstance(n.value, ast.Call) and isinstance(n.value.func, ast.Attribute) and n.value.func.attr == "_replace":
+                kws = {k.arg: k.value for k in n.value.keywords}
+                if "store_path" not in kws or not isinstance(n.targets[0], ast.Name):
+                    continue
+                n2 += 1
+                P = kws["store_path"]
+                X = n.targets[0].id
+                regs = _registrations(f)
+                good = []
+                for (st, key, val) in regs:
+                    if unparse(key) == unparse(P) and isinstance(val, ast.Attribute) and val.attr == "fun_return_sig" and isinstance(val.value, ast.Name) and val.value.id == X:
+                        good += cfg.nodes_of(st)
+                desc = f"the path of the kept call (`{unparse(n, 50)}`) is registered with the callee's signature before returning"
+                bad_path = None
+                for d in done_nodes(cfg, n):
+                    p = cfg.find_path([d], [cfg.exit], avoid=good)
+                    if p is not None:
+                        bad_path = p
+                if bad_path is None:
+                    rep.ok(rule, f.qname, desc, f.loc(n))
+                else:
+                    rep.bad(rule, f.qname, desc, f.loc(n), witness_path(cfg, f, bad_path) + [
+                        "a later dds.load of this path in the same evaluation is not resolved (analysis fails) or resolves to the previous content"],
+                        stmt_key(n), what="paths produced by dds.keep are not registered for later loads of the same evaluation")
+            # annotation kind: fis = inspect_fun(...) ; if fis.store_path: register
+            if isinstance(n, ast.Assign) and isinstance(n.value, ast.Call) and unparse(n.value.func).endswith("inspect_fun") and isinstance(n.targets[0], ast.Name) and f.cls is None:
+                n2 += 1
+                X = n.targets[0].id
+                regs = _registrations(f)
+                good = []
+                for (st, key, val) in regs:
+                    if isinstance(key, ast.Attribute) and key.attr == "store_path" and isinstance(key.value, ast.Name) and key.value.id == X and isinstance(val, ast.Attribute) and val.attr == "fun_return_sig":
+                        good += cfg.nodes_of(st)
+                # the "no path" outcome of `if X.store_path`
+                nopath = [b for b in cfg.nodes if b.kind == "branch" and b.label == "F" and b.ast is not None and unparse(b.ast) in (f"{X}.store_path", f"{X}.store_path is not None")]
+                nopath += [b for b in cfg.nodes if b.kind == "branch" and b.label == "T" and b.ast is not None and unparse(b.ast) == f"{X}.store_path is None"]
+                desc = f"a data function's path (`{X}.store_path`) is registered with its signature before {f.name} returns"
+                bad_path = None
+                for d in done_nodes(cfg, n):
+                    p = cfg.find_path([d], [cfg.exit], avoid=good + nopath)
+                    if p is not None:
+                        bad_path = p
+                if bad_path is None and good:
+                    rep.ok(rule, f.qname, desc, f.loc(n))
+                else:
+                    rep.bad(rule, f.qname, desc, f.loc(n), witness_path(cfg, f, bad_path) if bad_path else ["no registration statement"], stmt_key(n),
+                            what="paths produced by data functions are not registered for later loads of the same evaluation")
+    return n2
+
+
+
 def run(ctx: Ctx) -> None:
     rep = ctx.report
     prog = ctx.prog
@@ -141,61 +204,9 @@ def run(ctx: Ctx) -> None:
     rep.floor("C09.R1", n1, 2)
 
     # ---- R2 -------------------------------------------------------------------------------
-    n2 = 0
-    main_mod = prog.module("dds.introspect")
-    for f in [x for x in prog.funcs.values() if x.module is main_mod]:
-        cfg = cfg_of(f)
-        fl = flow_of(prog, f)
-        for n in f.own_nodes():
-            # keep kind: X = Y._replace(store_path=P)
-            if isinstance(n, ast.Assign) and isinstance(n.value, ast.Call) and isinstance(n.value.func, ast.Attribute) and n.value.func.attr == "_replace":
-                kws = {k.arg: k.value for k in n.value.keywords}
-                if "store_path" not in kws or not isinstance(n.targets[0], ast.Name):
-                    continue
-                n2 += 1
-                P = kws["store_path"]
-                X = n.targets[0].id
-                regs = _registrations(f)
-                good = []
-                for (st, key, val) in regs:
-                    if unparse(key) == unparse(P) and isinstance(val, ast.Attribute) and val.attr == "fun_return_sig" and isinstance(val.value, ast.Name) and val.value.id == X:
-                        good += cfg.nodes_of(st)
-                desc = f"the path of the kept call (`{unparse(n, 50)}`) is registered with the callee's signature before returning"
-                bad_path = None
-                for d in done_nodes(cfg, n):
-                    p = cfg.find_path([d], [cfg.exit], avoid=good)
-                    if p is not None:
-                        bad_path = p
-                if bad_path is None:
-                    rep.ok("C09.R2", f.qname, desc, f.loc(n))
-                else:
-                    rep.bad("C09.R2", f.qname, desc, f.loc(n), witness_path(cfg, f, bad_path) + [
-                        "a later dds.load of this path in the same evaluation is not resolved (analysis fails) or resolves to the previous content"],
-                        stmt_key(n), what="paths produced by dds.keep are not registered for later loads of the same evaluation")
-            # annotation kind: fis = inspect_fun(...) ; if fis.store_path: register
-            if isinstance(n, ast.Assign) and isinstance(n.value, ast.Call) and unparse(n.value.func).endswith("inspect_fun") and isinstance(n.targets[0], ast.Name) and f.cls is None:
-                n2 += 1
-                X = n.targets[0].id
-                regs = _registrations(f)
-                good = []
-                for (st, key, val) in regs:
-                    if isinstance(key, ast.Attribute) and key.attr == "store_path" and isinstance(key.value, ast.Name) and key.value.id == X and isinstance(val, ast.Attribute) and val.attr == "fun_return_sig":
-                        good += cfg.nodes_of(st)
-                # the "no path" outcome of `if X.store_path`
-                nopath = [b for b in cfg.nodes if b.kind == "branch" and b.label == "F" and b.ast is not None and unparse(b.ast) in (f"{X}.store_path", f"{X}.store_path is not None")]
-                nopath += [b for b in cfg.nodes if b.kind == "branch" and b.label == "T" and b.ast is not None and unparse(b.ast) == f"{X}.store_path is None"]
-                desc = f"a data function's path (`{X}.store_path`) is registered with its signature before {f.name} returns"
-                bad_path = None
-                for d in done_nodes(cfg, n):
-                    p = cfg.find_path([d], [cfg.exit], avoid=good + nopath)
-                    if p is not None:
-                        bad_path = p
-                if bad_path is None and good:
-                    rep.ok("C09.R2", f.qname, desc, f.loc(n))
-                else:
-                    rep.bad("C09.R2", f.qname, desc, f.loc(n), witness_path(cfg, f, bad_path) if bad_path else ["no registration statement"], stmt_key(n),
-                            what="paths produced by data functions are not registered for later loads of the same evaluation")
+    n2 = registered_with_signature(ctx, "C09.R2")
     rep.floor("C09.R2", n2, 2)
+    main_mod = prog.module("dds.introspect")
 
     # ---- R3 -------------------------------------------------------------------------------
     n3 = 0
